@@ -592,17 +592,20 @@ def gen_reject(tier, seed):
                 i = rng.randrange(len(ks)); bulk[i] = "%d:4294967295" % ks[i]
             cid += 1
             add("dyn-" + mode, "DYN j%d %s %d %d %s %d %d %d %d %d | %s | F:%d B" % (cid, cfg["name"], cfg["kbits"], cfg["signed"], cfg["vkind"], base, 1, 2, cfg["eps"], cfg["epsrec"], " ".join(bulk), ks[0]))
-        # the builder: non-increasing key inside a segment at every position, negative epsilon
+        # the builder: non-increasing key at EVERY position of short point lists (second point of a segment included),
+        # equal and smaller keys, several epsilons; negative epsilon
         for kb, sg in ((32, 0), (64, 1), (64, 0), (32, 1)):
             lo, hi = krange(kb, sg)
+            for n in (2, 3, 5, 9):
+                for i in range(1, n):
+                    base = max(lo, -1000) + rng.randint(0, 100)
+                    xs = [base + 10 * j + rng.randint(0, 5) for j in range(n)]
+                    pts = [(x, rng.choice([j, 3 * j, j * j])) for j, x in enumerate(xs)]   # steep ranks force rejections -> new segments
+                    pts[i] = (pts[i - 1][0] - rng.choice([0, 0, 1, 7]), pts[i][1])
+                    cid += 1; add("pla", "PLA j%d %d %d %d | %s" % (cid, kb, sg, rng.choice([0, 1, 4]), " ".join("%d:%d" % p for p in pts)))
             n = rng.randint(2, 30)
             xs = sorted(rng.sample(range(max(lo, -1000), max(lo, -1000) + 5000), n))
-            pts = [(x, i) for i, x in enumerate(xs)]
-            eps = rng.choice([0, 1, 4, 64, -1, -7])
-            if rng.random() < 0.7:
-                i = rng.randrange(1, n)
-                pts[i] = (pts[i - 1][0] - rng.choice([0, 0, 1, 5]), pts[i][1])
-            cid += 1; add("pla", "PLA j%d %d %d %d | %s" % (cid, kb, sg, eps, " ".join("%d:%d" % p for p in pts)))
+            cid += 1; add("pla", "PLA j%d %d %d %d | %s" % (cid, kb, sg, rng.choice([-1, -7, 0, 64]), " ".join("%d:%d" % (x, j) for j, x in enumerate(xs))))
     d, _ = gen_dyn(tier, seed + 17, reject=True)
     for l in d[: (12 if tier == "quick" else 200)]:
         t = l.split(" ", 2); t[1] = "jh" + t[1]
